@@ -11,7 +11,7 @@ API = {'simple': 'astmSimpleRangeCounting', 'rainflow': 'astmRainflowCounting',
 MATRIX_API = {'simple': 'astmSimpleRangeCountingMatrix', 'rainflow': 'astmRainflowCountingMatrix',
               'rangepair': 'astmRangePairCountingMatrix',
               'repeat': 'astmRainflowRepeatHistoryCountingMatrix',
-              'fourpoint': 'fourPointRainflowCountingMatrix', 'rychlik': 'rychlikRainflowCountingMatrix',
+              'fourpoint': 'fourPointCountingMatrix', 'rychlik': 'rychlikRainflowCountingMatrix',
               'johannesson': 'johannessonMinMaxCountingMatrix'}
 
 
